@@ -151,6 +151,8 @@ type ingestResult struct {
 	Export string // CLI: output of wrgl export
 	// Faulted names the spill file that was damaged ("" = none, e.g. nothing was spilled)
 	Faulted string
+	// ConfiguredOtherKey: before the commit the branch's configuration named another key (CLI route)
+	ConfiguredOtherKey bool
 }
 
 // runIngest ingests csvBytes under cfg, at package level or through the in-process CLI.
@@ -248,6 +250,23 @@ func runIngest(env *fw.Env, id string, csvBytes []byte, pkNames []string, cfg in
 			}
 		} else {
 			os.WriteFile(fp, csvBytes, 0644)
+			if id[len(id)-1]%2 == 1 {
+				// state left by earlier commands: the branch has a configured key (another one than the one chosen now, or
+				// one where none is chosen now). `wrgl commit BRANCH FILE MSG` takes its key from -p and from nothing else
+				if cols, _, perr := gen.ParseCSV(csvBytes, delimRune(cfg.Delim)); perr == nil && len(cols) > 0 {
+					other := cols[len(cols)-1]
+					if len(pkNames) == 1 && pkNames[0] == other {
+						other = cols[0]
+					}
+					if !strings.Contains(other, ",") {
+						if out, err, pn := mon.Wrgl(wd, nil, "config", "set", "branch.main.primaryKey", other); err != nil || pn != "" {
+							res.Err, res.Panic = fmt.Errorf("harness: config set branch.main.primaryKey: %v %s", err, out), pn
+							return
+						}
+						res.ConfiguredOtherKey = true
+					}
+				}
+			}
 			_, err, pn := mon.Wrgl(wd, nil, args...)
 			res.Err, res.Panic = err, pn
 			if err != nil || pn != "" {
